@@ -140,6 +140,12 @@ def run(tier, seed):
     # every yield form once, as fixed programs (the random programs below draw the forms by chance)
     for (kind, src) in proggen.yield_programs():
         progs.append(("yw_" + kind, "conftest.py", src.text(), src.features))
+    # (fixed) assignments that only ALIAS a fixture decorator declare nothing; `name = pytest.fixture(...)(func)` does
+    alias = ("import pytest\nfrom pytest import fixture\n\n\ndef helper(alpha):\n    return alpha\n\n\n"
+             "session_fixture = pytest.fixture(scope=\"session\")\nauto = fixture(autouse=True)\nplain_alias = pytest.fixture\n"
+             "named = pytest.fixture(name=\"other\")\nreal = pytest.fixture()(helper)\nreal_scoped = fixture(scope=\"module\")(helper)\n"
+             "not_one = pytest.mark.usefixtures(\"alpha\")(helper)\n\n\ndef test_alias(real, real_scoped):\n    pass\n")
+    progs.append(("alias", "conftest.py", alias, {"fixed-alias-assignments"}))
     for i in range(n):
         src = proggen.gen_program(r.rng)
         text = src.text(crlf=(r.rng.random() < 0.05))
